@@ -414,6 +414,11 @@ func c16Canon(sql string) (string, error) {
 	// numeric literals are compared by value, not by spelling: 0.00000095 and 9.5e-07, or 1.0 and 1, are the
 	// same literal as far as the statement is concerned (what the literal evaluates to is the echo mode's business)
 	_ = sqlparser.Walk(func(n sqlparser.SQLNode) (bool, error) {
+		// comments are compared separately (c16Comments): whether the sanitizer copies them through or drops them
+		// is not part of the statement's shape
+		if sel, ok := n.(*sqlparser.Select); ok {
+			sel.Comments = nil
+		}
 		if l, ok := n.(*sqlparser.Literal); ok {
 			switch l.Type {
 			case sqlparser.IntVal, sqlparser.DecimalVal, sqlparser.FloatVal:
@@ -543,6 +548,10 @@ func checkC16(c *C16Case) Result {
 	}
 	if got != want {
 		res.Violation = fmt.Sprintf("template %q with %s\n  sanitized %q\n  parses to  %s\n  expected   %s\n  (reference text %q)", tmpl, val.JSON(args), s, got, want, ref)
+		return res
+	}
+	if d := c16CommentsKept(s, ref); d != "" {
+		res.Violation = fmt.Sprintf("template %q with %s\n  sanitized %q\n  %s", tmpl, val.JSON(args), s, d)
 	}
 	return res
 }
@@ -603,4 +612,39 @@ func (c *C16Case) maxPlaceholder() int {
 		}
 	}
 	return m
+}
+
+// c16Comments returns the comments of a statement as the library's tokenizer sees them, in order.
+func c16Comments(sql string) []string {
+	p := sqlparser.Parser{}
+	tkn := p.NewStringTokenizer(sql)
+	tkn.AllowComments = true
+	var out []string
+	for i := 0; i < 10000; i++ {
+		typ, text := tkn.Scan()
+		if typ == 0 || typ == sqlparser.LEX_ERROR {
+			break
+		}
+		if typ == sqlparser.COMMENT {
+			out = append(out, text)
+		}
+	}
+	return out
+}
+
+// c16CommentsKept: every comment of the sanitized text is, verbatim, a comment of the reference text, in the
+// same order (comments may be dropped, never altered: a `$n` inside one is left alone).
+func c16CommentsKept(sanitized, reference string) string {
+	have, want := c16Comments(sanitized), c16Comments(reference)
+	j := 0
+	for _, c := range have {
+		for j < len(want) && strings.TrimRight(want[j], "\r\n ") != strings.TrimRight(c, "\r\n ") {
+			j++
+		}
+		if j == len(want) {
+			return fmt.Sprintf("the sanitized text holds the comment %q, which is not a comment of the template (comments of the template: %q)", c, want)
+		}
+		j++
+	}
+	return ""
 }
